@@ -20,6 +20,10 @@ structure Row where
   post : List Str
   deriving DecidableEq, Repr
 
+/-- a translated row (as `GeneratedSync.clientRows` holds it) as a `Row` -/
+def Row.ofTuple (t : Str × List Str × List (Str × Str) × Str × List Str × List Str) : Row :=
+  { dest := t.1, required := t.2.1, conv := t.2.2.1, method := t.2.2.2.1, args := t.2.2.2.2.1, post := t.2.2.2.2.2 }
+
 /-- the option variables of `main()`: (variable, argparse destination) -/
 def varSources : List (Str × Str) :=
   [ ("store_path".toList, "store_path".toList), ("logging_level_arg".toList, "logging_level".toList),
